@@ -139,6 +139,10 @@ def check(ctx):
     for lang in sorted(set(langunits.UNITS) | set(langunits.SP_UNITS)):
         for n, src, _m in langunits.units(lang) + langunits.sp_units(lang):
             progs.append((n, src, lang))
+    # brace lines behind a '<<' expression (align_left_shift marks the lines of such a group "do not indent"): nested initialiser
+    # elements and a braced case block after a shifted case label, on lines of their own
+    progs.append(("unit:shift-braces/C", b"#define FLAGS 3\n#define A 1\nint sh1[3][2] = { FLAGS << 4,\n{ 1,\n2 },\n7 };\nstruct sp { int a; int b[2]; } sh2 = { 1 << 2,\n{ 5,\n6 } };\n"
+                  b"int shf(int v)\n{\nswitch (v) {\ncase A << 2:\n{\nv++;\n}\nbreak;\n}\nreturn v << 1;\n}\n", "C"))
     nlay = 0
     for pid, src, lang in progs:
         lays = layouts(src)
